@@ -64,6 +64,22 @@ KANI_FORMATTER = {
     "source_hint": "leptos_i18n_parser/src/utils/formatter.rs",
 }
 
+KANI_RANGES_MULTIPLE = {
+    "name": "c04_kani_ranges_multiple",
+    "package": "leptos_i18n_parser",
+    "module": "parse_locales::ranges::verif_kani",
+    "harness_files": ["kani/ranges.rs"],
+    "flags": ["-Z", "function-contracts"],
+    "quick": ["dmm_i8::exact_or_bounds", "dmm_u64::exact_or_bounds"],
+    # three_children costs ~750 s per type (measured): thorough runs it for i8 only
+    "thorough": ["dmm_%s::exact_or_bounds" % t for t in INTS] + ["dmm_i8::three_children"],
+    "timeout": 1500,
+    "procs": 8,
+    "bounded": "`Multiple` values with 2 or 3 children of fixed shapes (all operands symbolic, unwind 3/4 with "
+               "unwinding assertions); integer types only",
+    "source_hint": "leptos_i18n_parser/src/parse_locales/ranges.rs",
+}
+
 PROPS = {
     "C18": {
         "level": "model_checking",
@@ -111,7 +127,7 @@ PROPS = {
     "C04": {
         "level": "proof",
         "verus": ["c04_find_value"],
-        "kani": [KANI_RANGES],
+        "kani": [KANI_RANGES, KANI_RANGES_MULTIPLE],
         "assumptions": [],
         "trusted_base": [],
     },
